@@ -286,6 +286,12 @@ impl CallHelper {
         args.prepare_registers(&mut regs);
         regs.update(Register::Rax, fn_addr);
         regs.update(Register::Rip, rip);
+        // System V AMD64 ABI: the 128 bytes below the stack pointer (red zone) belong to the
+        // interrupted function and the stack pointer must be 16-byte aligned at a `call`.
+        // The original stack pointer comes back with the rest of the saved registers.
+        const RED_ZONE: u64 = 128;
+        let sp = ccx.regs.value(Register::Rsp);
+        regs.update(Register::Rsp, sp.wrapping_sub(RED_ZONE) & !0xF);
         regs.persist(ccx.pid)?;
 
         debug!(target: "debugger", "call a function, wait until breakpoint are hit");
